@@ -34,7 +34,7 @@ def completes (asStr : V → Option (List Char)) (σ k : Nat) (hasTimer : Bool) 
   | .ret rsn msg => if rsn = σ then some (.callback (some msg)) else none
   | .err rsn name body =>
     if rsn = σ then some (.remoteError name (errorFields asStr body).1 (errorFields asStr body).2) else none
-  | .expire t => if hasTimer ∧ t = k then some (.timeOut C08Client.timeoutText.toList) else none
+  | .expire t => if hasTimer ∧ t = k then some (.timeOut localText) else none
   | .lost r => some (.lost r)
   | .call .. => none
   | .callBad .. => none
